@@ -173,6 +173,8 @@ class Intrinsics:
             n = z3.IntVal(owner.addr)
             oldview = st.sel("View", n)
             st.upd("View", n, viewnew)
+            if "CView" in st.g:
+                st.upd("CView", d, viewnew)
             root = self.root_of(st, owner)
             if root.addr != owner.addr:
                 self.eng.note("[L-COMP]")
@@ -843,6 +845,8 @@ class Intrinsics:
                 view = st.sel("View", z3.IntVal(src_owner.addr))
             elif "view_term" in val.meta:
                 view = val.meta["view_term"]
+            elif "CView" in st.g:
+                view = st.sel("CView", addr_of(val.term))
             st.upd("View", n, view)
             st.event("data-rebound", obj.addr, "alias")
             for h in eng.hooks:
@@ -856,6 +860,8 @@ class Intrinsics:
         t = to_val(val)
         st.upd("Cell", d, t)
         st.upd("View", n, self.iv(st, val))
+        if "CView" in st.g:
+            st.upd("CView", d, self.iv(st, val))
         root = self.root_of(st, obj)
         if root.addr != obj.addr and rec.tag.startswith("node"):
             # [L-COMP] applies to ATTACHED nodes only; a node under construction is not yet part of any tree
@@ -1078,6 +1084,8 @@ class Intrinsics:
 
     def b_type(self, eng, st, fn, args, kwargs):
         v = args[0]
+        if isinstance(v, Z) and v.hint in ("dict", "list"):
+            return [(st, BuiltinV(v.hint))]
         if isinstance(v, ObjV):
             return [(st, ClassV(st.rec(v).cls))]
         if isinstance(v, Const) and v.v is None:
